@@ -98,6 +98,10 @@ func oneCase(c *vk.Ctx, i int, r *rand.Rand, p *sem.Prepared, cs cachedSrv) {
 			}
 		}
 	}
+	// warm-up without faults: the model and typesystem lookups are shared between concurrent requests
+	// (singleflight on the first caller's context); they must be resolved before deadlines are injected,
+	// or one request's deadline fails another through that lookup — real, but not an iterator cache
+	cs.s.Check(drive.Req{Store: p.Store, Model: p.ModelID, Object: reqs[0].Object, Relation: reqs[0].Relation, User: "user:warmup", Ctx: rctx})
 	// fault phase
 	cs.ods.NextLatency.Store(int64(800 * time.Microsecond))
 	cs.ods.ReadLatency.Store(int64(300 * time.Microsecond))
@@ -108,18 +112,46 @@ func oneCase(c *vk.Ctx, i int, r *rand.Rand, p *sem.Prepared, cs cachedSrv) {
 			go func(qi int, rq sem.Request) {
 				defer wg.Done()
 				dl := time.Duration(1+(qi*7+round*3)%8) * time.Millisecond
-				o := cs.s.Check(drive.Req{Store: p.Store, Object: rq.Object, Relation: rq.Relation, User: rq.User, Ctx: rctx, Deadline: dl})
+				// explicit model id: the latest-model lookup is shared between requests (singleflight) and would
+				// let one request's deadline fail another — real, but not the iterator caches' doing
+				o := cs.s.Check(drive.Req{Store: p.Store, Model: p.ModelID, Object: rq.Object, Relation: rq.Relation, User: rq.User, Ctx: rctx, Deadline: dl})
 				if o.Err != nil {
 					c.Count("fault_phase_requests_cut_short", 1)
 				} else {
 					c.Count("fault_phase_requests_completed", 1)
-					// a request that completed during the fault phase is judged too
+					// a request that completed during the fault phase is judged too — for grants only: the
+					// engines treat a read cut by the request's OWN deadline as end of data, so a request whose
+					// deadline fires while it finishes can deny wrongly with or without caches (not C09's subject)
 					k := rc.Eval(rq.User).K(rq.Object, rq.Relation)
 					if v := sem.JudgeCheck(k, rc.AnyUnevaluable(), o); v != sem.Agree && v != sem.NotJudged {
-						report(c, p, cs, rc, "Check(fault phase)", rq, k, o, v)
+						if k == ref.T && !o.Allowed {
+							c.Count("fault_phase_denials_at_own_deadline(not_judged)", 1)
+						} else {
+							report(c, p, cs, rc, "Check(fault phase)", rq, k, o, v)
+						}
 					}
 				}
 			}(qi, rq)
+			if qi%3 == round {
+				// a bystander: the same request with NO client deadline, concurrent with the cancelled ones
+				// (it shares their datastore reads through the shared iterators and the iterator caches);
+				// it must be answered like any other request, not fail with somebody else's cancellation
+				wg.Add(1)
+				go func(rq sem.Request) {
+					defer wg.Done()
+					o := cs.s.Check(drive.Req{Store: p.Store, Model: p.ModelID, Object: rq.Object, Relation: rq.Relation, User: rq.User, Ctx: rctx})
+					k := rc.Eval(rq.User).K(rq.Object, rq.Relation)
+					c.Count("bystander_requests", 1)
+					c.Case(fmt.Sprintf("bystander|%s|%s", cs.name, sem.ShapeOf(p, rq, k)), k != ref.F)
+					if v := sem.JudgeCheck(k, rc.AnyUnevaluable(), o); v != sem.Agree && v != sem.NotJudged {
+						if o.Code == "Canceled" || o.Code == "openfga_2058" || o.Code == "DeadlineExceeded" || o.Code == "openfga_2057" {
+							c.Violation("", "bystander-cancelled|"+cs.name, fmt.Sprintf("on %s, Check(%s#%s@%s) with no client deadline or cancellation failed with %s while concurrent requests sharing its reads were cancelled", cs.name, rq.Object, rq.Relation, rq.User, o), witness(p, cs.name, rq, k.String(), o.String()))
+							return
+						}
+						report(c, p, cs, rc, "Check(bystander)", rq, k, o, v)
+					}
+				}(rq)
+			}
 		}
 		for li, l := range los {
 			wg.Add(1)
